@@ -17,6 +17,7 @@ pub fn exec(plan: &Plan, mode: Mode) -> Result<CaseReport, Failure> {
     let w = &mut fin.world;
     let gid = w.gid.clone();
     let mut evicted = 0;
+    let mut replayed = 0u64;
     let r = (|| -> Result<(), Failure> {
         for m in w.actors() {
             obs.check_store(w, m, "at the end of the history")?;
@@ -32,8 +33,24 @@ pub fn exec(plan: &Plan, mode: Mode) -> Result<CaseReport, Failure> {
                     format!("c{m}'s MLS state has merged its own removal (the group is no longer active there), yet the stored group record is still Active"),
                 ));
             }
-            // a client that has processed its own removal: inactive, cannot send
+            // a client that has processed its own removal: inactive, cannot send - also after
+            // every invitation it had answered before is delivered once more under a new wrapper
+            // id and, should that leave something pending, accepted
             if cl.evicted_at.is_some() && cl.cur.is_none() {
+                if w.group_state(m) == Some(GroupState::Inactive) {
+                    for (k, wl) in w.welcomes.iter().enumerate().filter(|(_, wl)| wl.to == m && wl.processed && wl.answered) {
+                        let mut id = [0xEDu8; 32];
+                        id[1] = k as u8;
+                        id[2] = m as u8;
+                        let fresh = nostr::EventId::from_byte_array(id);
+                        if let Ok(again) = on_mdk!(cl.mdk(), mm => mm.process_welcome(&fresh, &wl.rumor)) {
+                            replayed += 1;
+                            if again.state == mdk_storage_traits::welcomes::types::WelcomeState::Pending {
+                                let _ = on_mdk!(cl.mdk(), mm => mm.accept_welcome(&again));
+                            }
+                        }
+                    }
+                }
                 evicted += 1;
                 if w.group_state(m) != Some(GroupState::Inactive) {
                     return Err(Failure::new(
@@ -62,6 +79,7 @@ pub fn exec(plan: &Plan, mode: Mode) -> Result<CaseReport, Failure> {
     rep.classes.extend(obs.classes.iter().cloned());
     *rep.counters.entry("stored-foreign-messages-judged".into()).or_insert(0) += obs.judged;
     *rep.counters.entry("clients-checked-after-own-removal".into()).or_insert(0) += evicted;
+    *rep.counters.entry("old-invitations-replayed-to-removed-clients".into()).or_insert(0) += replayed;
     Ok(rep)
 }
 
@@ -98,7 +116,7 @@ pub fn main(args: &Args) -> i32 {
     let spec = Spec {
         id: "C03",
         level: "exploration",
-        rule: "histories of adds, removals, leaves (+ auto-commit), self-updates, Nostr-id rotations, races and replays with frequent messages; every client - never-invited outsiders, ex-members keeping their whole local state incl. past exporter secrets, late joiners, members - is offered every wrapper event (forward and reversed, until nothing changes) and its invitations. Judged on every delivery and on every store at the end: a message's content is returned or stored only at a client whose identity was in the sender's member list when the message was created; after processing its own removal a client holds the group Inactive, cannot send and stores nothing more; a removal an admin's call committed (one to three members per call, keys in plan-chosen order) is really in the roster of every receiver that applies it. A third of the worlds carry a second live group on some of the same clients (one client possibly in that group only): its events given to non-members, main-group events given to the client that is only in the other group, and events re-tagged with the other group's id must be refused without effect. Non-trivial = a client that was not a member of the sending epoch was offered an application message; distinct = distinct plans".into(),
+        rule: "histories of adds, removals, leaves (+ auto-commit), self-updates, Nostr-id rotations, races and replays with frequent messages; every client - never-invited outsiders, ex-members keeping their whole local state incl. past exporter secrets, late joiners, members - is offered every wrapper event (forward and reversed, until nothing changes) and its invitations. Judged on every delivery and on every store at the end: a message's content is returned or stored only at a client whose identity was in the sender's member list when the message was created; after processing its own removal a client holds the group Inactive, cannot send and stores nothing more - also after the invitations it had answered earlier are delivered again under new wrapper ids (and accepted, should that leave one pending); a removal an admin's call committed (one to three members per call, keys in plan-chosen order) is really in the roster of every receiver that applies it. A third of the worlds carry a second live group on some of the same clients (one client possibly in that group only): its events given to non-members, main-group events given to the client that is only in the other group, and events re-tagged with the other group's id must be refused without effect. Non-trivial = a client that was not a member of the sending epoch was offered an application message; distinct = distinct plans".into(),
         assumptions: vec![
             "membership of the sending epoch = the member list the sender saw when it created the message (known to the harness for every branch, winning or not)".into(),
             "message contents are unique canaries, so holdings are recognised without trusting ids".into(),
